@@ -10,8 +10,14 @@ SHAPES = ["no-params", "one-param", "two-params", "default", "annotation", "retu
           "closing-paren-own-line", "method", "async", "decorated", "positional-only", "keyword-only", "comment-after-colon", "default-contains-paren-colon", "varargs"]
 BODIES = ["call-target", "argument", "keyword-argument", "attribute-base", "binary-operand", "unary-operand", "compare-operand", "subscript-value", "subscript-index",
           "list-element", "tuple-element", "dict-value", "assert", "return", "await", "in-if", "in-for", "in-while", "in-with", "in-try", "in-except", "in-finally", "augmented-assign", "annotated-assign", "raise",
-          "f-string(unjudged)", "lambda(unjudged)", "comprehension(unjudged)", "twice-on-one-line", "nested-call-argument"]
-BINDINGS = ["visible-undeclared", "declared-parameter", "local-assigned-earlier", "local-assigned-later(unjudged)", "for-target-earlier", "with-target-earlier", "module-level-assignment", "module-level-import", "module-level-def", "only-in-sibling-conftest", "unknown-name"]
+          "f-string(unjudged)", "lambda(unjudged)", "comprehension(unjudged)", "twice-on-one-line", "nested-call-argument",
+          "in-else", "in-elif", "in-for-else", "in-while-else", "in-try-else", "in-async-with", "in-async-for", "in-match-case", "in-except-star", "in-nested-blocks",
+          "if-condition", "while-condition", "for-iterable", "with-item", "match-subject", "conditional-expression", "boolean-operand", "starred-argument",
+          "dict-key", "set-element", "slice-bound", "yield-value", "assert-message", "walrus-value(unjudged)", "return-tuple", "chained-attribute-call", "after-compound-statement"]
+BINDINGS = ["visible-undeclared", "declared-parameter", "local-assigned-earlier", "local-assigned-later(unjudged)", "for-target-earlier", "with-target-earlier", "module-level-assignment", "module-level-import", "module-level-def", "only-in-sibling-conftest", "unknown-name",
+            "assigned-in-except-earlier", "except-as-name-earlier", "assigned-in-for-else-earlier", "assigned-in-try-finally-earlier", "local-import-earlier", "local-from-import-earlier",
+            "local-def-earlier", "local-class-earlier", "tuple-unpack-earlier", "starred-unpack-earlier", "walrus-earlier", "match-capture-earlier", "assigned-in-match-case-earlier",
+            "assigned-in-while-body-earlier", "nested-with-as-tuple-earlier", "async-for-target-earlier", "assigned-in-except-star-earlier"]
 FLAVOURS = ["test", "fixture"]
 DIMS = [("shape", SHAPES), ("body", BODIES), ("binding", BINDINGS), ("flavour", FLAVOURS)]
 
@@ -27,6 +33,19 @@ def body_lines(form, N):
      "augmented-assign": ["y = 0", "y += %s" % N], "annotated-assign": ["y: int = %s" % N], "raise": ["raise %s" % N],
      "f-string(unjudged)": ["y = f'{%s}'" % N], "lambda(unjudged)": ["y = lambda: %s" % N], "comprehension(unjudged)": ["y = [%s for _ in range(1)]" % N],
      "twice-on-one-line": ["assert %s.a == %s.b" % (N, N)], "nested-call-argument": ["print(len(str(%s)))" % N],
+     "in-else": ["if False:", "    pass", "else:", "    %s.go()" % N], "in-elif": ["if False:", "    pass", "elif True:", "    %s.go()" % N],
+     "in-for-else": ["for i in range(1):", "    pass", "else:", "    %s.go()" % N], "in-while-else": ["while False:", "    pass", "else:", "    %s.go()" % N],
+     "in-try-else": ["try:", "    pass", "except Exception:", "    pass", "else:", "    %s.go()" % N],
+     "in-async-with": ["async with ctx():", "    %s.go()" % N], "in-async-for": ["async for i in agen():", "    %s.go()" % N],
+     "in-match-case": ["match 1:", "    case 1:", "        %s.go()" % N, "    case _:", "        pass"],
+     "in-except-star": ["try:", "    pass", "except* ValueError:", "    %s.go()" % N],
+     "in-nested-blocks": ["for i in range(1):", "    if i:", "        with open('f'):", "            %s.go()" % N],
+     "if-condition": ["if %s.ok():" % N, "    pass"], "while-condition": ["while %s.more():" % N, "    break"], "for-iterable": ["for i in %s.items():" % N, "    pass"],
+     "with-item": ["with %s.ctx():" % N, "    pass"], "match-subject": ["match %s.kind:" % N, "    case _:", "        pass"],
+     "conditional-expression": ["y = %s.a if True else 0" % N], "boolean-operand": ["y = True and %s.a" % N], "starred-argument": ["print(*%s.items)" % N],
+     "dict-key": ["y = {%s.k: 1}" % N], "set-element": ["y = {%s.a, 1}" % N], "slice-bound": ["y = [1, 2][%s.a:]" % N], "yield-value": ["yield %s.a" % N],
+     "assert-message": ["assert True, %s.msg" % N], "walrus-value(unjudged)": ["if (y := %s.a):" % N, "    pass"], "return-tuple": ["return 1, %s.a" % N],
+     "chained-attribute-call": ["%s.a.b.c()" % N], "after-compound-statement": ["try:", "    v = 1", "except Exception:", "    v = 2", "%s.go(v)" % N],
     }[f]
 
 def build(a):
@@ -44,7 +63,7 @@ def build(a):
     if shape == "decorated": L.append(ind + "@pytest.mark.skip")
     p = "a"
     declared = [N] if bind == "declared-parameter" else []
-    kw = "async def" if (shape == "async" or BODIES[form] == "await") else "def"
+    kw = "async def" if (shape == "async" or BODIES[form] in ("await", "in-async-with", "in-async-for") or bind == "async-for-target-earlier") else "def"
     def sig(params, tail=":"):
         return ind + "%s %s(%s)%s" % (kw, name, ", ".join(params), tail)
     if shape == "no-params": L.append(sig(declared))
@@ -75,6 +94,24 @@ def build(a):
         L.append(bi + "for %s in [object()]:" % N); L.append(bi + "    pass")
     if bind == "with-target-earlier":
         L.append(bi + "with open('f') as %s:" % N); L.append(bi + "    pass")
+    extra_bind = {
+        "assigned-in-except-earlier": ["try:", "    pass", "except Exception:", "    %s = object()" % N],
+        "except-as-name-earlier": ["try:", "    pass", "except Exception as %s:" % N, "    pass", "%s = object()" % N] if False else ["try:", "    pass", "except Exception as e0:", "    %s = e0" % N],
+        "assigned-in-for-else-earlier": ["for i0 in range(1):", "    pass", "else:", "    %s = object()" % N],
+        "assigned-in-try-finally-earlier": ["try:", "    pass", "finally:", "    %s = object()" % N],
+        "local-import-earlier": ["import os as %s" % N], "local-from-import-earlier": ["from os import path as %s" % N],
+        "local-def-earlier": ["def %s():" % N, "    return 1"], "local-class-earlier": ["class %s:" % N, "    pass"],
+        "tuple-unpack-earlier": ["%s, other0 = object(), 2" % N], "starred-unpack-earlier": ["*%s, other0 = [1, 2]" % N],
+        "walrus-earlier": ["if (%s := object()):" % N, "    pass"],
+        "match-capture-earlier": ["match object():", "    case %s:" % N, "        pass"],
+        "assigned-in-match-case-earlier": ["match 1:", "    case _:", "        %s = object()" % N],
+        "assigned-in-while-body-earlier": ["while True:", "    %s = object()" % N, "    break"],
+        "nested-with-as-tuple-earlier": ["with open('f') as (%s, other0):" % N, "    pass"],
+        "async-for-target-earlier": ["async for %s in agen():" % N, "    pass"],
+        "assigned-in-except-star-earlier": ["try:", "    pass", "except* ValueError:", "    %s = object()" % N],
+    }
+    if bind in extra_bind:
+        for x in extra_bind[bind]: L.append(bi + x)
     use_first = len(L) + 1
     for x in body_lines(form, N): L.append(bi + x)
     if bind == "local-assigned-later(unjudged)": L.append(bi + "%s = object()" % N)
